@@ -326,11 +326,14 @@ class Blob(Column):
 
     def to_database(self, value):
 
+        if value is None:
+            return None
+
         if not isinstance(value, (bytes, bytearray)):
             raise Exception("expecting a binary, got a %s" % type(value))
 
         val = super(Bytes, self).to_database(value)
-        return bytearray(val)
+        return bytes(val)
 
 
 Bytes = Blob
